@@ -6,6 +6,7 @@ import Driver.Codec
 import Driver.ClientGlue
 import Driver.Sched
 import Driver.E2E
+import Driver.CSTLS
 /-!
 Line-protocol driver: runs the *same definitions the theorems are about* on the case
 lines the Go harness receives.  One case per line, one answer per line.
@@ -71,6 +72,7 @@ def runMon (f : List String) : String :=
   | some "parse" => Codec.monitorParse c a
   | some "cconv" => ClientGlue.monitor pid c a
   | some "e2e" => E2E.monitor pid c a
+  | some "cstls" => CSTLS.monitor pid c a
   | _ => "ok"
 
 def runCase (line : String) : String :=
@@ -86,6 +88,7 @@ def runCase (line : String) : String :=
   | some "rt" => Codec.probeRT f
   | some "cconv" => ClientGlue.probe f
   | some "e2e" => E2E.probe f
+  | some "cstls" => CSTLS.probe f
   | some "accept" => Sched.probeAccept f
   | some "sched" => Sched.probeSched f
   | some p => "DRIVER-UNKNOWN-PROBE " ++ p
